@@ -228,26 +228,26 @@ Section Replay.
     match outs with ODefault n => n | ONamed ns => List.length ns end.
 
   (* operands in order; an OLitCast contributes CastLike(constant, like-value) *)
-  Fixpoint replay_args (env : list V) (args : list operand) : option (list V * list (option V)) :=
+  Fixpoint replay_args (env : list V) (args : list operand) : option (list (option V)) :=
     match args with
-    | [] => Some (env, [])
+    | [] => Some []
     | a :: r =>
       match a with
       | OVal id =>
         match nth_error env id, replay_args env r with
-        | Some v, Some (env', vs) => Some (env', Some v :: vs)
+        | Some v, Some vs => Some (Some v :: vs)
         | _, _ => None
         end
-      | ONone => match replay_args env r with Some (env', vs) => Some (env', None :: vs) | None => None end
+      | ONone => match replay_args env r with Some vs => Some (None :: vs) | None => None end
       | OLit l =>
-        match replay_args env r with Some (env', vs) => Some (env', Some (lit_val (l_val l)) :: vs) | None => None end
+        match replay_args env r with Some vs => Some (Some (lit_val (l_val l)) :: vs) | None => None end
       | OLitCast l like =>
         match nth_error env like with
         | Some lv =>
           match sem "" "CastLike" [] [Some (lit_val (l_val l)); Some lv] with
           | Some [cv] =>
             match replay_args env r with
-            | Some (env', vs) => Some (env', Some cv :: vs)
+            | Some vs => Some (Some cv :: vs)
             | None => None
             end
           | _ => None
@@ -262,9 +262,9 @@ Section Replay.
     match c with
     | COp _ dom op args attrs [] outs =>
       match replay_args env args with
-      | Some (env', vs) =>
+      | Some vs =>
         match sem dom op attrs vs with
-        | Some rs => if Nat.eqb (List.length rs) (n_outs_of outs) then Some (env' ++ rs)%list else None
+        | Some rs => if Nat.eqb (List.length rs) (n_outs_of outs) then Some (env ++ rs)%list else None
         | None => None
         end
       | None => None
@@ -294,8 +294,14 @@ Section Replay.
     end.
 End Replay.
 
+(* straight-line calls of ordinary operators / functions: no graph-valued attribute, not the
+   structurally interpreted If / Loop, no operand that needs a CastLike node *)
+Definition plain_operand (a : operand) : bool := match a with OLitCast _ _ => false | _ => true end.
 Definition straight_call (c : call) : bool :=
-  match c with COp _ _ _ _ _ [] _ => true | _ => false end.
+  match c with
+  | COp _ dom op args _ [] _ => negb (is_if dom op) && negb (is_loop dom op) && forallb plain_operand args
+  | _ => false
+  end.
 Definition straight (tr : list call) : bool := forallb straight_call tr.
 
 (* ---------------------------------------------------------------- correspondence helpers *)
@@ -353,5 +359,25 @@ Definition tcase := (list string * list call * list nat * graph * list string)%t
 Definition tagrees (cf : bcfg) (c : tcase) : bool :=
   let '(ins, tr, outs, g, nn) := c in
   graph_eqb (build cf ins tr outs) g && list_eqb String.eqb (build_node_names cf ins tr) nn.
+Definition tcase_graph (c : tcase) : graph := let '(_, _, _, g, _) := c in g.
 Fixpoint tdisagreeing (cf : bcfg) (i : nat) (cs : list tcase) : list nat :=
   match cs with [] => [] | c :: t => ((if tagrees cf c then [] else [i]) ++ tdisagreeing cf (S i) t)%list end.
+
+(* every value id used as an operand exists when it is used (n = number of values created so far) *)
+Definition operand_ok (n : nat) (a : operand) : bool :=
+  match a with OVal id => Nat.ltb id n | OLitCast _ id => Nat.ltb id n | _ => true end.
+Fixpoint ids_ok (n : nat) (tr : list call) : bool :=
+  match tr with
+  | [] => true
+  | COp _ _ _ args _ _ outs :: r =>
+    forallb (operand_ok n) args &&
+    ids_ok (n + match outs with ODefault k => k | ONamed ns => List.length ns end) r
+  | CRaw _ _ nv :: r => ids_ok (n + List.length nv) r
+  end.
+
+Definition call_lits (c : call) : list lit :=
+  match c with
+  | COp _ _ _ args _ _ _ =>
+    flat_map (fun a => match a with OLit l => [l] | OLitCast l _ => [l] | _ => [] end) args
+  | CRaw _ _ _ => []
+  end.
